@@ -142,7 +142,7 @@ func runC06F(c *core.Ctx) {
 	fd.HoldFor = 0 // a stalled caller resumes when nothing else can run: the clock stands still during a phase, so every call has one time
 	fd.S.Install()
 	defer fd.S.Uninstall()
-	defer fd.S.Off()
+	defer fd.Finish(c)
 	defer func() {
 		c.SetInterleaving(fd.S.Hash(), fd.S.Steps())
 		c.FaultN("schedule:goroutine-stalled", fd.Holds)
@@ -245,7 +245,7 @@ func runC06F(c *core.Ctx) {
 	// everything queued reaches the processor
 	fd.ReleaseAll()
 	fd.Settle(0, 1<<30)
-	fd.S.Off()
+	fd.Finish(c)
 	synctest.Wait()
 	c.Nontrivial()
 	// split the polls into per-transaction operations
